@@ -36,7 +36,7 @@ BoundaryDates ==
                \cup {<<y, 2, 29>> : y \in {4, 400, 1600, 2024, 9996}}
                \cup {<<y, 12, 31>> : y \in {1, 99, 100, 1899, 1999, 2000, 9998}}
           ELSE {})
-BoundarySods == IF Thorough THEN {0, 1, 59, 60, 3599, 3600, 43200, 86340, 86398, 86399} ELSE {0, 11696, 86399}
+BoundarySods == IF Thorough THEN {0, 1, 3599, 43200, 86340, 86399} ELSE {0, 11696, 86399}
 BoundaryOffsets ==
     {0, 1, -1, 30, -30, 59, -59, 60, -60, 330, -210, 840, -840, 1439, -1439}
     \cup (IF Thorough THEN {61, -61, 345, -345, 720, -720, 1380, -1380, 1438, -1438} ELSE {})
@@ -168,7 +168,9 @@ FunctionForm ==
 Terminates == idx \in 0..23 /\ att \in 0..5 /\ fi \in 0..5 /\ Len(res) <= fi
 
 \* predictions of the impl-shaped layer for the replay (drift measurement only)
-ImplOk(bk, c) == [k \in 1..NForms(c) |-> ImplParse(bk, Input(c, k, Fmt(Inst(c), c.off)), Dev_h41).ok]
+\* (the replay always carries full, min and fullZ — every string a conversion produces — and all five for boundary cases)
+EmitForms(c) == IF c.sweep THEN 3 ELSE 5
+ImplOk(bk, c) == [k \in 1..EmitForms(c) |-> ImplParse(bk, Input(c, k, Fmt(Inst(c), c.off)), Dev_h41).ok]
 
 \* one literal of the replay case: the bytes, what they denote, and the class of the input
 Lit(s) == LET w == Parse(s)
@@ -180,9 +182,9 @@ EmitInv ==
         LET i == Inst(cs)
         IN PrintT(<<"REPLAY", ToJson(
             [day |-> cs.day, sod |-> cs.sod, off |-> cs.off, sweep |-> cs.sweep,
-             str |-> Fmt(i, cs.off), utc |-> FmtUtc(i),
+             \* lits[1].s = Fmt(i, off), lits[3].s = FmtUtc(i) (RoundTrip / FmtRefines), lits[2] the minute form, ...
              cls_off |-> <<OffClass(cs.off), YearClass(LocalOf(i, cs.off).day)>>,
              cls_utc |-> <<"utc", YearClass(i.day)>>,
-             lits |-> [k \in 1..NForms(cs) |-> Lit(Input(cs, k, Fmt(i, cs.off)))],
+             lits |-> [k \in 1..EmitForms(cs) |-> Lit(Input(cs, k, Fmt(i, cs.off)))],
              impl |-> [chrono |-> ImplOk("chrono", cs), jiff |-> ImplOk("jiff", cs), time |-> ImplOk("time", cs)]])>>)
 =============================================================================
